@@ -350,7 +350,7 @@ def _read_mapping_partial(lines, start_line):
         # else: we are dealing with a section that we should ignore.
         has_content = True
 
-    if name is None and context != 'molecule':
+    if name is None and has_content:
         # At this point, there are two cases where the name can be None:
         # either it was not defined, or there was no content to read. In the
         # later case, the context was not changed from its initial value.
